@@ -101,7 +101,7 @@ func checkC04(r *mc.Report, thorough bool) {
 		root string
 		mode string
 	}
-	variants := []variant{{0, "root0", "A"}, {0, "root0", "B"}, {1, "-", "A"}, {3, "root0", "A"}}
+	variants := []variant{{0, "root0", "A"}, {0, "root0", "B"}, {1, "-", "A"}, {3, "root0", "A"}, {4, "root0", "A"}}
 	if thorough {
 		variants = nil
 		for h := 0; h < c04.NumHistories; h++ {
